@@ -10,6 +10,7 @@ import PhyVerif.Driver.C02
 import PhyVerif.Driver.C03
 import PhyVerif.Driver.C06
 import PhyVerif.Driver.C11
+import PhyVerif.Driver.C09
 open Lean PhyVerif.Driver
 
 def dispatch (j : Json) : R Json := do
@@ -28,6 +29,7 @@ def dispatch (j : Json) : R Json := do
   | "C06" => runC06 op j
   | "C11" => runC11 op j
   | "C12" => runC12 op j
+  | "C09" => runC09 op j
   | _ => .error s!"unknown property {p}"
 
 def handle (line : String) : String :=
